@@ -720,6 +720,39 @@ theorem local_restore (sc : Schema) (cfg : Cfg) : ∀ (ltx : LocalTx) (t t' : Ta
           rw [undoFold_snoc, hf1]
           exact undoStep_ok sc cfg u1 u' item res hit hres
 
+/-- the same for a local transaction that carries on after failed statements -/
+theorem lenient_restore (sc : Schema) (cfg : Cfg) : ∀ (ltx : LocalTx) (t : Table),
+    PkUnique sc t → (∀ r ∈ t, r.length = sc.ncols) → (∀ p ∈ ltx, StmtWF sc p.1) →
+    (PkUnique sc (localPhase1Lenient sc cfg t ltx).1 ∧ ∀ r ∈ (localPhase1Lenient sc cfg t ltx).1, r.length = sc.ncols) ∧
+    ∀ u : Table, u.Perm (localPhase1Lenient sc cfg t ltx).1 →
+      ∃ u', undoFold sc cfg u (localPhase1Lenient sc cfg t ltx).2.1.items.reverse = (u', true) ∧ u'.Perm t := by
+  intro ltx
+  induction ltx with
+  | nil =>
+    intro t hu hsh _
+    exact ⟨⟨hu, hsh⟩, fun u hp => ⟨u, rfl, hp⟩⟩
+  | cons p rest ih =>
+    intro t hu hsh hs
+    obtain ⟨s, args⟩ := p
+    simp only [localPhase1Lenient]
+    split
+    · exact ih t hu hsh (fun q hq => hs q (by simp [hq]))
+    · rename_i t1 item keys h1
+      obtain ⟨⟨hu1, hsh1⟩, hempty, hundo⟩ :=
+        stmt_restore sc cfg t args s t1 item keys hu hsh (hs (s, args) (by simp)) h1
+      obtain ⟨hwf2, hrest⟩ := ih t1 hu1 hsh1 (fun q hq => hs q (by simp [hq]))
+      refine ⟨hwf2, ?_⟩
+      intro u hp
+      obtain ⟨u1, hf1, hp1⟩ := hrest u hp
+      cases hne : item.nonEmpty
+      · simp only [Bool.false_eq_true, if_false]
+        exact ⟨u1, hf1, hempty hne ▸ hp1⟩
+      · simp only [if_true, List.reverse_cons]
+        obtain ⟨u', res, hit, hres, hp'⟩ := hundo hne u1 hp1
+        refine ⟨u', ?_, hp'⟩
+        rw [undoFold_snoc, hf1]
+        exact undoStep_ok sc cfg u1 u' item res hit hres
+
 /-! ### the global transaction -/
 
 /-- rolling `x` back takes (a permutation of) `tn` to (a permutation of) `tm` -/
